@@ -568,7 +568,10 @@ def chain_id_form(f, cid, env, listvar):
             names.add(U(n.value.args[0]))
     verdicts = []
     for lp in [n for n in walk_own(f.node) if isinstance(n, ast.For)]:
-        ext = [c for c in calls(lp, tail="extend") if U(c.func.value) in names] + [c for c in calls(lp, tail="append") if U(c.func.value) in names]
+        # `lst += seg` on the list is `lst.extend(seg)`
+        aug = [ast.Call(func=ast.Attribute(value=n.target, attr="extend", ctx=ast.Load()), args=[n.value], keywords=[]) for n in walk_own(lp)
+               if isinstance(n, ast.AugAssign) and isinstance(n.op, ast.Add) and U(n.target) in names]
+        ext = [c for c in calls(lp, tail="extend") if U(c.func.value) in names] + [c for c in calls(lp, tail="append") if U(c.func.value) in names] + aug
         if not ext:
             continue
         et = _enum_target(lp)
